@@ -124,10 +124,10 @@ func C17(ctx *core.Ctx) {
 	for i := 0; i < st.NumFields(); i++ {
 		f := st.Field(i)
 		if _, ok := f.Type().Underlying().(*types.Map); ok {
-			mapFields = append(mapFields, f.Name())
+			mapFields = append(mapFields, structFieldName(st, i))
 		}
 		if ssax.TypeNamed(f.Type(), "sync", "RWMutex") || ssax.TypeNamed(f.Type(), "sync", "Mutex") {
-			muField = f.Name()
+			muField = structFieldName(st, i)
 		}
 	}
 	if muField == "" || len(mapFields) == 0 {
@@ -137,14 +137,72 @@ func C17(ctx *core.Ctx) {
 
 	// ---- R1 -------------------------------------------------------------------
 	// the counter: the package-level uint64 passed to atomic.AddUint64 in the op-id generator
-	gen := r.Fn("C17.R1", "getNextOpID")
+	// the generator by role: the one function of the package that returns a
+	// string and draws it from sync/atomic.AddUint64 (its name is not part of the API)
+	var gen *ssa.Function
+	{
+		var cands []*ssa.Function
+		for _, fn := range r.Fns {
+			res := fn.Signature.Results()
+			if res.Len() != 1 || fn.Parent() != nil {
+				continue
+			}
+			if b, ok := res.At(0).Type().Underlying().(*types.Basic); !ok || b.Kind() != types.String {
+				continue
+			}
+			for _, c := range ssax.Calls(fn) {
+				if c.FullName() == "sync/atomic.AddUint64" {
+					cands = append(cands, fn)
+					break
+				}
+			}
+		}
+		if len(cands) == 1 {
+			gen = cands[0]
+		} else {
+			ctx.Unresolved("C17.R1", "op-id generator", sprintf("expected one string-returning function drawing from atomic.AddUint64, found %d", len(cands)))
+		}
+	}
 	var counter *ssa.Global
+	genRecvIdx := -1 // the counter is the generator's parameter #genRecvIdx (method on a named counter type)
 	if gen != nil {
 		for _, c := range ssax.Calls(gen) {
 			if strings.HasPrefix(c.FullName(), "sync/atomic.") && len(c.Common.Args) > 0 {
-				if g, ok := c.Common.Args[0].(*ssa.Global); ok {
+				a0 := ssax.Strip(c.Common.Args[0])
+				if cv, isCv := a0.(*ssa.Convert); isCv {
+					a0 = ssax.Strip(cv.X)
+				}
+				if ct, isCt := a0.(*ssa.ChangeType); isCt {
+					a0 = ssax.Strip(ct.X)
+				}
+				if g, ok := a0.(*ssa.Global); ok {
 					counter = g
 				}
+				for i, q := range gen.Params {
+					if a0 == ssa.Value(q) {
+						genRecvIdx = i
+					}
+				}
+			}
+		}
+		if genRecvIdx >= 0 {
+			// every call hands the same package-level counter over
+			same := true
+			for _, fn := range r.Fns {
+				for _, c := range ssax.Calls(fn) {
+					if c.Static != gen || genRecvIdx >= len(c.Common.Args) {
+						continue
+					}
+					g, ok := ssax.Strip(c.Common.Args[genRecvIdx]).(*ssa.Global)
+					if !ok || (counter != nil && counter != g) {
+						same = false
+					} else {
+						counter = g
+					}
+				}
+			}
+			if !same {
+				counter = nil
 			}
 		}
 		if counter == nil {
@@ -161,7 +219,7 @@ func C17(ctx *core.Ctx) {
 					}
 					n++
 					c, isCall := ssax.AsCall(in)
-					ok := isCall && strings.HasPrefix(c.FullName(), "sync/atomic.")
+					ok := isCall && (strings.HasPrefix(c.FullName(), "sync/atomic.") || (c.Static == gen && genRecvIdx >= 0))
 					ctx.Check(ok, "C17.R1", ssax.Name(fn)+" › use of "+counter.Name(), r.IPos(in),
 						"&"+counter.Name()+" passed to "+c.FullName(), "the op-id counter is read or written without sync/atomic: two contexts can get the same op id")
 				}
